@@ -1,6 +1,110 @@
-//! C07: not implemented yet.
+//! C07/C08/C09: embedding round trip through the per-format handlers.
+//! case: {fmt, asset:{hex}|{fixture}|{file}, ops:[{op:"w",store:hex}|{op:"rm"}], dump?:dir}
+//! result: {r:"ok", init:{len,h,read,loc}, steps:[{op, r, kind?, len, h, hex?|file?, read, loc}]}
+//! An operation that fails leaves the current asset unchanged.  `h` is a polynomial hash
+//! (base 1000003, modulus 2^61-1, bytes offset by one) shared with the Coq model and the orchestrator.
+use c2pa::{
+    jumbf_io::{load_jumbf_from_memory, save_jumbf_to_memory},
+    verif_hooks::c07::{verif_object_locations_from_memory, verif_remove_jumbf_from_memory},
+};
 use serde_json::{json, Value};
 
-pub fn run(_case: &Value) -> Value {
-    json!({"r": "unimplemented"})
+use crate::util::*;
+
+const P: u128 = (1u128 << 61) - 1;
+const B: u128 = 1_000_003;
+
+pub fn poly_hash(data: &[u8]) -> u64 {
+    let mut h: u128 = 0;
+    for &x in data {
+        h = (h * B + x as u128 + 1) % P;
+    }
+    h as u64
+}
+
+fn load_asset(a: &Value) -> Vec<u8> {
+    if let Some(h) = a.get("hex") {
+        return hexd(h);
+    }
+    if let Some(f) = a.get("fixture").and_then(|v| v.as_str()) {
+        return std::fs::read(format!("/repo/sdk/tests/fixtures/{}", f)).expect("fixture");
+    }
+    if let Some(f) = a.get("file").and_then(|v| v.as_str()) {
+        return std::fs::read(f).expect("asset file");
+    }
+    panic!("asset spec")
+}
+
+fn bytes_val(b: &[u8], inline: bool) -> Value {
+    let mut v = json!({"len": b.len(), "h": poly_hash(b).to_string()});
+    if inline {
+        v["hex"] = json!(hexe(b));
+    }
+    v
+}
+
+fn read_val(fmt: &str, data: &[u8], inline: bool) -> Value {
+    match load_jumbf_from_memory(fmt, data) {
+        Ok(b) => {
+            let mut v = bytes_val(&b, inline);
+            v["r"] = json!("ok");
+            v
+        }
+        Err(e) => json!({"r": "err", "kind": err_class(&e)}),
+    }
+}
+
+fn loc_val(fmt: &str, data: &[u8]) -> Value {
+    match verif_object_locations_from_memory(fmt, data) {
+        Ok(l) => json!({"r": "ok", "list": l.iter().map(|(o, n, k)| json!([o, n, k])).collect::<Vec<_>>()}),
+        Err(e) => json!({"r": "err", "kind": err_class(&e)}),
+    }
+}
+
+pub fn exec(case: &Value) -> Value {
+    let fmt = case["fmt"].as_str().expect("fmt");
+    let mut cur = load_asset(&case["asset"]);
+    let dump = case.get("dump").and_then(|v| v.as_str());
+    let inline = dump.is_none();
+    let id = case["id"].as_u64().unwrap_or(0);
+    let want_loc = case.get("loc").and_then(|v| v.as_bool()).unwrap_or(true);
+    let mut init = bytes_val(&cur, false);
+    init["read"] = read_val(fmt, &cur, inline);
+    if want_loc {
+        init["loc"] = loc_val(fmt, &cur);
+    }
+    let mut steps = Vec::new();
+    for (k, op) in case["ops"].as_array().expect("ops").iter().enumerate() {
+        let name = op["op"].as_str().expect("op");
+        let res = match name {
+            "w" => save_jumbf_to_memory(fmt, &cur, &hexd(&op["store"])),
+            "rm" => verif_remove_jumbf_from_memory(fmt, &cur),
+            _ => panic!("unknown op"),
+        };
+        let mut s = match res {
+            Ok(out) => {
+                let mut s = bytes_val(&out, inline);
+                s["r"] = json!("ok");
+                if let Some(d) = dump {
+                    let p = format!("{}/{}_{}.bin", d, id, k);
+                    std::fs::write(&p, &out).expect("dump");
+                    s["file"] = json!(p);
+                }
+                cur = out;
+                s
+            }
+            Err(e) => json!({"r": "err", "kind": err_class(&e), "detail": format!("{}", e)}),
+        };
+        s["op"] = json!(name);
+        s["read"] = read_val(fmt, &cur, inline);
+        if want_loc {
+            s["loc"] = loc_val(fmt, &cur);
+        }
+        steps.push(s);
+    }
+    json!({"r": "ok", "init": init, "steps": steps})
+}
+
+pub fn run(case: &Value) -> Value {
+    exec(case)
 }
